@@ -47,6 +47,8 @@ def tag_to_py(desc):
         return tuple(tag_to_py(x) for x in v)
     if k == "f":
         return frozenset(int(x) for x in v)
+    if k == "F":
+        return frozenset(str(x) for x in v)
     if k == "b":
         return bytes.fromhex(v)
     if k == "c":
